@@ -568,6 +568,31 @@ def run(rep, tier):
            "the stub of a purged element gets a fresh Governance block {purged, content_digest} and nothing of the previous one is read: a `secret` element's stub falls "
            "back to the Space default classification and FIND(?c) WHERE { ?c CONCEPT {id: \"C-1\", state: \"purged\"} } hands it to a reader with an `internal` ceiling",
            sb_.file + ":%d" % sb_.line)
+    # (e) a past coordinate is not a way around the present's authorization: where the read context loads a historical row
+    #     (element_at / elements_at), the row the element has *now* is fetched and put to may_read before the historical one is admitted
+    K = nx.N + "::kql"
+    for fname, hist_rx in (("load", r"Store>?::element_at$"), ("candidates", r"Store>?::elements_at$")):
+        cands_ = [f for f in prog.fns.values() if re.search(r"kql::.*Context.*::%s$" % fname, f.path) and f.kind != "Closure"]
+        if not cands_:
+            raise CheckerFault("anchor missing: kql Context::%s" % fname)
+        g = prog.async_body(cands_[0]) or cands_[0]
+        rep.saw(g, len(g.events))
+        hist = g.calls_named(hist_rx)
+        adm = g.calls_named(r"Context.*::admit$")
+        if not hist or not adm:
+            raise CheckerFault("anchor missing: historical load / admit in Context::%s" % fname)
+        present = [e for e in g.calls_named(r"Store>?::get_element$") if any(g.dominates(h.block, e.block) and h.block != e.block for h in hist)]
+        # (the probe may sit in a small helper that was made transparent: position, not data flow, ties the decision to the fetch)
+        judged = [m_ for m_ in g.calls_named(r"EffectiveAuthority::may_read$") if any(g.dominates(pr.block, m_.block) for pr in present)]
+        # every path to admit fetches the present row (when that fetch fails there is no present row to judge); the decision on it exists
+        pb = {b for e in present for b in (e.block, e.call_block)}
+        late_adm = [a for a in adm if any(g.dominates(h.block, a.block) for h in hist)]
+        ok = bool(present) and bool(judged) and bool(late_adm) and all(
+            not (g.reachable_from([h.block], avoid=pb) & {a.block}) or g.must_pass(pb, [a.block], start=h.block) for h in hist for a in late_adm)
+        rep.ob("R19.8", "past-coordinate-judged-by-present-row|%s" % fname, ok,
+               "Context::%s hands the historical row to admit without fetching the element's present row and putting it to may_read: an element raised to `secret` "
+               "after seq 1 is still returned by AS OF SEQ 1 to a reader whose ceiling is `internal` (the code's own comment says a past coordinate is not a way "
+               "around the present's authorization)" % fname, hist[0].where())
     return rep.finish(EXPLAIN)
 
 
